@@ -245,6 +245,21 @@ def binary_input(ctx):
              "encoding: a text-mode file, with whatever fixed encoding, fails or garbles every valid document in another encoding (UTF-16, ISO-8859-1)")
     pm = _parser_funcs(ctx)[2]
     opens = [c for c in ast.walk(pm.node) if isinstance(c, ast.Call) and dotted(c.func) == 'open']
+    # with every optional parameter at its default: an open that is only reached when the caller passes an explicit encoding is the caller's decision
+    g_ = cfg_of(pm.node)
+    a_ = pm.node.args
+    defaults = dict(zip([x.arg for x in a_.args][len(a_.args) - len(a_.defaults):], a_.defaults))
+    assume = {}
+    for p_, d_ in defaults.items():
+        if isinstance(d_, ast.Constant) and d_.value is None:
+            assume[f"{p_} is None"] = True
+            assume[p_] = False
+    live = g_.reachable(g_.entry, edge_ok=g_.edge_filter_assuming(assume)) if assume else set(g_.stmt_nodes())
+    for c in list(opens):
+        n_ = next((x for x in g_.stmt_nodes() if any(y is c for e_ in x.exprs() for y in ast.walk(e_))), None)
+        if n_ is not None and n_ not in live:
+            opens.remove(c)
+            res.ok('R-ENC.input', pm.fq, f"`{short(c)}` is reached only when the caller passes an explicit value for {sorted(defaults)} (not with the default arguments)")
     for c in opens:
         mode = c.args[1] if len(c.args) > 1 else get_kw(c, 'mode')
         m = const_value(mode) if mode is not None else 'r'
